@@ -6,5 +6,6 @@ INDEX = {
     "C02": ["c01"],
     "C03": ["c20"],
     "C05": ["c05"],
+    "C19": ["c19"],
     "C20": ["c20"],
 }
